@@ -19,9 +19,15 @@ cp "$SRC/demo_test.go" "$WT/$DIR/zz_seed_demo_test.go"
 if (cd "$WT" && timeout 300 go test -vet=off -count=1 -run 'Seed|seed' "./$DIR/" >/tmp/seedchk/demo1.log 2>&1); then res "demo with change" "PASS (expected FAIL)"; else res "demo with change" "FAIL (expected): $(grep -m1 -- '--- FAIL' /tmp/seedchk/demo1.log)"; fi
 # the check on the changed tree (demo file removed first: checks look at non-test sources only)
 rm -f "$WT/$DIR/zz_seed_demo_test.go"
+if [ "${CHECKS:-}" = ALL ]; then CHECKS="C01 C02 C03 C04 C05 C06 C07 C08 C09 C10 C11 C12 C13 C14 C15 C16 C17 C18 C19 C20"; fi
+run1() { local P=$1; VERIF_REPO="$WT" bin/kmipsa -repo "$WT" -verif "$PWD" -outdir /tmp/seedchk/out-$P -prop "$P" -tier quick -evidence /tmp/seedchk/ev.$P.json > /tmp/seedchk/check.$P.log 2>&1; echo "$P $?" > /tmp/seedchk/rc.$P; }
+export -f run1; export WT PWD
+echo ${CHECKS:-$ID} | tr ' ' '\n' | xargs -P 10 -I{} bash -c 'run1 {}'
+any=0
 for P in ${CHECKS:-$ID}; do
-  VERIF_REPO="$WT" bin/kmipsa -repo "$WT" -verif "$PWD" -outdir /tmp/seedchk/out -prop "$P" -tier quick -evidence /tmp/seedchk/ev.json > /tmp/seedchk/check.$P.log 2>&1; rc=$?
-  if [ $rc -eq 1 ]; then res "check $P on changed tree" "VIOLATION: $(grep -m2 'kind=' /tmp/seedchk/check.$P.log | cut -c1-260 | tr '\n' ' ')"; else res "check $P on changed tree" "silent (rc=$rc)"; fi
+  rc=$(awk '{print $2}' /tmp/seedchk/rc.$P)
+  if [ "$rc" = 1 ]; then any=1; res "check $P on changed tree" "VIOLATION: $(grep -m2 'kind=' /tmp/seedchk/check.$P.log | cut -c1-260 | tr '\n' ' ')"; elif [ "$P" = "$ID" ] || [ "$rc" != 0 ]; then res "check $P on changed tree" "silent (rc=$rc)"; fi
 done
+[ $any = 0 ] && res "all selected checks" "SILENT"
 git -C "$WT" checkout -- . ; cp "$SRC/demo_test.go" "$WT/$DIR/zz_seed_demo_test.go"
 if (cd "$WT" && timeout 300 go test -vet=off -count=1 -run 'Seed|seed' "./$DIR/" >/tmp/seedchk/demo2.log 2>&1); then res "demo without change" "PASS (expected)"; else res "demo without change" "FAIL (unexpected): $(grep -m2 -- '--- FAIL\|^FAIL\|cannot\|undefined' /tmp/seedchk/demo2.log | tr '\n' ' ')"; fi
